@@ -71,7 +71,8 @@ pub fn oracles(v: &View, stats: &mut Stats) -> Vec<Record> {
                         ))
                         .fact("packet", p.kind())
                         .fact("zero", p.pkid() == 0)
-                        .fact("limit_lowered_by_connack", v.limit_lowered),
+                        .fact("limit_lowered_by_connack", v.limit_lowered)
+                        .fact("lowered_to_or_below_last_id", v.lowered_to_or_below_last_id),
                     );
                 }
             }
@@ -133,7 +134,13 @@ pub fn oracles(v: &View, stats: &mut Stats) -> Vec<Record> {
                 "window-exceeded",
                 format!("{} publishes are written and unacknowledged, limit in force is {} (after {})", window, v.limit_eff, v.step_show()),
             ))
-            .fact("limit_lowered_by_connack", v.limit_lowered),
+            .fact("limit_lowered_by_connack", v.limit_lowered)
+            // the excess consists of carried-over publishes (counted from the CONNACK on, replayed whatever the
+            // window says) unless this very step wrote a *new* request's publish beyond the limit
+            .fact(
+                "exceeded_by_replayed_publish",
+                !matches!(&v.step, Step::Call { call, .. } if call.via == Via::Request && matches!(&call.outcome, Outcome::Ok(Some(Pk::Publish { qos, .. })) if *qos > 0)),
+            ),
         );
     }
 
@@ -403,7 +410,9 @@ mod el {
                                 "window-exceeded",
                                 format!("{} publishes written and unacknowledged, limit in force {}", unacked.len(), limit),
                             )
-                            .fact("limit_lowered_by_connack", limit < case.inflight),
+                            .fact("limit_lowered_by_connack", limit < case.inflight)
+                            // (first connection of the event loop: nothing is replayed on it)
+                            .fact("exceeded_by_replayed_publish", false),
                         );
                         return out;
                     }
@@ -437,7 +446,9 @@ mod el {
                         )
                         .fact("packet", format!("{:?}", w.pk.kind))
                         .fact("zero", w.pk.pkid == 0)
-                        .fact("limit_lowered_by_connack", limit < case.inflight),
+                        .fact("limit_lowered_by_connack", limit < case.inflight)
+                        // (first connection of the event loop: no id has been handed out before its CONNACK)
+                        .fact("lowered_to_or_below_last_id", false),
                     );
                     return out;
                 }
